@@ -102,31 +102,55 @@ func c15Ready(st map[int]bool, n c15Node) bool {
 	return true
 }
 
-// c15YSched mirrors y_sched and loop_ok: emitted nodes, left-over nodes, "no ready node was stepped over".
-func c15YSched(nodes []c15Node) (emitted, left []c15Node, noSkip bool) {
+// c15YSched mirrors y_sched (genGlobalVarDecl with the fix: scan for the first ready node, emit it, restart):
+// emitted nodes, left-over nodes.
+func c15YSched(nodes []c15Node) (emitted, left []c15Node) {
 	st := map[int]bool{}
-	noSkip = true
 	for {
-		var revisit, skipped []c15Node
+		var revisit []c15Node
+		for i, n := range nodes {
+			if !c15Ready(st, n) {
+				revisit = append(revisit, n)
+				continue
+			}
+			emitted = append(emitted, n)
+			st[n.ID] = true
+			revisit = append(revisit, nodes[i+1:]...)
+			break
+		}
+		if len(revisit) == 0 || len(revisit) == len(nodes) {
+			return emitted, revisit
+		}
+		nodes = revisit
+	}
+}
+
+// c15OldSched mirrors old_sched, the loop before the fix of finding C15-skipped-ready (every ready node of a pass
+// emitted before going back). Only used to count and to aim at the programs on which a return of the defect shows.
+func c15OldSched(nodes []c15Node) (emitted, left []c15Node) {
+	st := map[int]bool{}
+	for {
+		var revisit []c15Node
 		for _, n := range nodes {
 			if !c15Ready(st, n) {
 				revisit = append(revisit, n)
-				skipped = append(skipped, n)
 				continue
-			}
-			for _, s := range skipped {
-				if c15Ready(st, s) {
-					noSkip = false
-				}
 			}
 			emitted = append(emitted, n)
 			st[n.ID] = true
 		}
 		if len(revisit) == 0 || len(revisit) == len(nodes) {
-			return emitted, revisit, noSkip
+			return emitted, revisit
 		}
 		nodes = revisit
 	}
+}
+
+// fixSensitive: the loop before the fix would initialise this package in another order.
+func (p *c15Pkg) fixSensitive() bool {
+	a, aok := c15Logs(c15YSched(p.yNodes()))
+	b, bok := c15Logs(c15OldSched(p.yNodes()))
+	return aok != bok || fmt.Sprint(a) != fmt.Sprint(b)
 }
 
 func c15GSched(nodes []c15Node) (emitted, left []c15Node) {
@@ -305,11 +329,7 @@ func (p *c15Pkg) side() bool {
 	if p.declSorted() {
 		return true
 	}
-	if !p.plain() {
-		return false
-	}
-	_, _, ns := c15YSched(p.yNodes())
-	return ns
+	return p.plain()
 }
 
 // region label of a package outside the side condition (negated side conditions, by priority).
@@ -361,7 +381,7 @@ func (p *c15Pkg) region() string {
 	case multi:
 		return "multi-unit"
 	}
-	return "skipped-ready"
+	return "unclassified" // unreachable: a package outside the side condition has one of the features above
 }
 
 func (g *c15Prog) find(id int) *c15Pkg {
@@ -434,7 +454,7 @@ type c15Mode int
 const (
 	c15MainSorted c15Mode = iota
 	c15MainPlain
-	c15Skipped
+	c15MainPlainRegress // plain, and the loop before the fix of C15-skipped-ready would order it differently
 	c15FuncMed
 	c15MultiNG
 	c15MultiUnit
@@ -664,13 +684,17 @@ func (g *c15Gen) bodyFor(mode c15Mode, nSpecs int) *c15Pkg {
 			if p.side() && !p.declSorted() {
 				return p
 			}
+		case c15MainPlainRegress:
+			if p.side() && p.fixSensitive() {
+				return p
+			}
 		case c15Cycle:
-			if _, left, _ := c15YSched(p.yNodes()); len(left) > 0 {
+			if _, left := c15YSched(p.yNodes()); len(left) > 0 {
 				return p
 			}
 		default:
 			if p.region() != "" {
-				y, yok := c15Logs(firstTwo(c15YSched(p.yNodes())))
+				y, yok := c15Logs(c15YSched(p.yNodes()))
 				gg, gok := c15Logs(c15GSched(p.gNodes()))
 				if yok != gok || fmt.Sprint(y) != fmt.Sprint(gg) || try > 30 {
 					return p
@@ -678,13 +702,11 @@ func (g *c15Gen) bodyFor(mode c15Mode, nSpecs int) *c15Pkg {
 			}
 		}
 	}
-	if mode == c15MainPlain {
+	if mode == c15MainPlain || mode == c15MainPlainRegress {
 		return g.body(c15MainSorted, nSpecs)
 	}
 	return p
 }
-
-func firstTwo(a, b []c15Node, _ bool) ([]c15Node, []c15Node) { return a, b }
 
 func (g *c15Gen) program(mode c15Mode, multiPkg, shufflePkgs bool) *c15Prog {
 	r := g.r
@@ -1228,7 +1250,7 @@ func runC15(args []string) error {
 		case k < 56:
 			c.stream, c.prog = "main-plain", g.program(c15MainPlain, multi, false)
 		case k < 63:
-			c.stream, c.prog = "skipped-ready", g.program(c15Skipped, multi, false)
+			c.stream, c.prog = "main-plain-regress", g.program(c15MainPlainRegress, multi, false)
 		case k < 70:
 			c.stream, c.prog = "func-mediated", g.program(c15FuncMed, multi, false)
 		case k < 77:
@@ -1308,6 +1330,14 @@ func runC15(args []string) error {
 		}
 		if !c.yaegi.OK {
 			sm.count("yaegi:rejected-or-odd")
+		}
+		if c.region == "" {
+			for _, p := range c.prog.Pkgs {
+				if p.fixSensitive() {
+					sm.count("main-stream cases on which the loop before the fix of C15-skipped-ready would differ")
+					break
+				}
+			}
 		}
 		if c.ref.Odd != "" {
 			return fmt.Errorf("reference run of case %d is neither a clean run nor an initialization cycle: %s\n%v", c.id, c.ref.Odd, c.files)
